@@ -13,9 +13,11 @@ ROUND = int(os.environ.get('SEED_ROUND', '1'))
 DEST = os.environ.get('SEED_DEST', VERIF)
 INC = os.path.join(DEST, 'seeded', '_incoming' if ROUND == 1 else '_incoming%d' % ROUND)
 OFFSET = 2 * (ROUND - 1)
-WT = '/tmp/seedval-wt'
-TGT = '/tmp/seedval-target'
-OUT = '/tmp/seedval-out'
+TAG = os.environ.get('SEED_TAG', '')            # parallel validations: own worktree, target dir and summary file
+NOCHECKS = os.environ.get('SEED_NOCHECKS') == '1'  # confirm only (suite + demo); the checks are run by tools/run_checks_on_seeds.py
+WT = '/tmp/seedval-wt' + TAG
+TGT = '/tmp/seedval-target' + TAG
+OUT = '/tmp/seedval-out' + TAG
 
 def sh(cmd, cwd=None, env=None, timeout=3600):
     e = dict(os.environ, CARGO_NET_OFFLINE='true', CARGO_TARGET_DIR=TGT)
@@ -66,7 +68,7 @@ def main():
             # run the checks against the changed tree
             os.remove(os.path.join(WT, 'sv-parser/examples/seeddemo.rs'))
             verdicts = {}
-            for c in checks:
+            for c in ([] if NOCHECKS else checks):
                 rcc, oc = sh('./check %s --tier quick' % c, cwd=VERIF, env=dict(VERIF_REPO=WT, VERIF_OUT=OUT))
                 vio = [l for l in oc.split('\n') if l.startswith('VIOLATION')]
                 verdicts[c] = dict(exit=rcc, violations=[re.sub(r' replay=\S+', '', v)[:260] for v in vio][:6],
@@ -90,7 +92,7 @@ def main():
         sh('git -C /repo worktree remove --force %s' % WT)
         shutil.rmtree(TGT, ignore_errors=True)
         shutil.rmtree(OUT, ignore_errors=True)
-    json.dump(summary, open(os.path.join(DEST, 'seeded', 'validation_summary.json' if ROUND == 1 else 'validation_summary%d.json' % ROUND), 'w'), indent=1)
+    json.dump(summary, open(os.path.join(DEST, 'seeded', 'validation_summary.json' if ROUND == 1 else 'validation_summary%d%s.json' % (ROUND, TAG)), 'w'), indent=1)
 
 if __name__ == '__main__':
     main()
